@@ -224,8 +224,27 @@ theorem getSymbol_ident (f : Sym) (subs : List Expr) : getSymbol (.node .kIDENTI
   unfold getSymbol
   simp
 
-theorem writes_sound {cfg : Cfg} (hc : cfg.WritesComplete) {P : List FunDecl} {env : Env} (hcons : Consistent cfg env P)
-    {e : Expr} {s : Sym} (h : Writes P e s) : s ∈ collectWrites cfg env e := by
+theorem dotSym_ident (f : Sym) (subs : List Expr) : dotSym (.node .kIDENTIFIER f subs) = 0 := by
+  simp [dotSym]
+
+theorem calleeSym_of_calleeIs {dot b : Bool} (hdot : dot = true → b = true) {c : Expr} {f : Sym} (h : CalleeIs dot c f) :
+    calleeSym b c = f := by
+  cases h with
+  | ident f subs => simp [calleeSym, dotSym_ident, getSymbol_ident]
+  | processDot f subs hd hne =>
+    have hb := hdot hd
+    have : dotSym (.node .kDOT f subs) = f := by simp [dotSym]
+    simp [calleeSym, hb, this, hne]
+
+theorem calleeSym_cases (b : Bool) (f : Expr) : calleeSym b f = getSymbol f ∨ calleeSym b f = dotSym f := by
+  unfold calleeSym
+  split
+  · exact Or.inr rfl
+  · exact Or.inl rfl
+
+theorem writes_sound {cfg : Cfg} (hc : cfg.WritesComplete) {dot : Bool} (hdot : dot = true → cfg.writeCallResolvesDot = true)
+    {P : List FunDecl} {env : Env} (hcons : Consistent cfg env P)
+    {e : Expr} {s : Sym} (h : Writes dot P e s) : s ∈ collectWrites cfg env e := by
   induction h with
   | direct hk hroot =>
     have hl := hc.2.2.2.2.2.1 _ hk
@@ -233,19 +252,21 @@ theorem writes_sound {cfg : Cfg} (hc : cfg.WritesComplete) {P : List FunDecl} {e
     simp only [hl, if_true, List.mem_append]
     exact Or.inr (rootOf_getSymbols hc hroot)
   | sub he _ ih => exact collectWrites_sub hc.1 he ih
-  | @callBody k x f s fsubs args fd b hk hfd hname hb _ hnl hnp ih =>
+  | @callBody k x f s c args fd b hk hcal hfd hname hb _ hnl hnp ih =>
     have hk' := hc.2.2.2.2.2.2.1 _ hk
-    have hfind : env.find f = some (funInfo cfg env fd) := hname ▸ hcons fd hfd
+    have hfind : env.find (calleeSym cfg.writeCallResolvesDot c) = some (funInfo cfg env fd) := by
+      rw [calleeSym_of_calleeIs hdot hcal]; exact hname ▸ hcons fd hfd
     have hmem := mem_funInfo_changes hc hb ih hnl hnp
     unfold collectWrites
-    simp only [hk'.1, hk'.2, getSymbol_ident, hfind, hc.2.1, if_true, List.mem_append, Bool.false_eq_true, if_false]
+    simp only [hk'.1, hk'.2, hfind, hc.2.1, if_true, List.mem_append, Bool.false_eq_true, if_false]
     exact Or.inr (Or.inl hmem)
-  | @callRef k x f s p fsubs args fd a b hk hfd hname hzip hb _ hroot _ =>
+  | @callRef k x f s p c args fd a b hk hcal hfd hname hzip hb _ hroot _ =>
     have hk' := hc.2.2.2.2.2.2.1 _ hk
-    have hfind : env.find f = some (funInfo cfg env fd) := hname ▸ hcons fd hfd
+    have hfind : env.find (calleeSym cfg.writeCallResolvesDot c) = some (funInfo cfg env fd) := by
+      rw [calleeSym_of_calleeIs hdot hcal]; exact hname ▸ hcons fd hfd
     have hmem : s ∈ refArgSymbols cfg fd.refNonConst args := refArgSymbols_mem args fd.params fd.refNonConst hzip (rootOf_getSymbols hc hroot)
     unfold collectWrites
-    simp only [hk'.1, hk'.2, getSymbol_ident, hfind, hc.2.2.1, if_true, List.mem_append, Bool.false_eq_true, if_false]
+    simp only [hk'.1, hk'.2, hfind, hc.2.2.1, if_true, List.mem_append, Bool.false_eq_true, if_false]
     exact Or.inr (Or.inr (by simpa [funInfo] using hmem))
 
 
@@ -305,8 +326,9 @@ theorem collectWrites_congr {cfg : Cfg} (hx : cfg.CallsExact) {env1 env2 : Env} 
         cases subs with
         | nil => simp [hl, hcall]
         | cons f args =>
-          have hf : env1.find (getSymbol f) = env2.find (getSymbol f) :=
-            h _ (by unfold calleeSyms; simp [hck])
+          have hf : env1.find (calleeSym cfg.writeCallResolvesDot f) = env2.find (calleeSym cfg.writeCallResolvesDot f) := by
+            rcases calleeSym_cases cfg.writeCallResolvesDot f with h1 | h1 <;> rw [h1] <;>
+              exact h _ (by unfold calleeSyms; simp [hck])
           simp [hl, hcall, hf]
       · simp [hl, hcall]
 theorem collectWritesL_congr {cfg : Cfg} (hx : cfg.CallsExact) {env1 env2 : Env} :
@@ -334,8 +356,9 @@ theorem collectReads_congr {cfg : Cfg} (hx : cfg.CallsExact) {env1 env2 : Env} :
         cases subs with
         | nil => simp [hi, hcall]
         | cons f args =>
-          have hf : env1.find (getSymbol f) = env2.find (getSymbol f) :=
-            h _ (by unfold calleeSyms; simp [hck])
+          have hf : env1.find (calleeSym cfg.readCallResolvesDot f) = env2.find (calleeSym cfg.readCallResolvesDot f) := by
+            rcases calleeSym_cases cfg.readCallResolvesDot f with h1 | h1 <;> rw [h1] <;>
+              exact h _ (by unfold calleeSyms; simp [hck])
           simp [hi, hcall, hf]
       · simp [hi, hcall]
 theorem collectReadsL_congr {cfg : Cfg} (hx : cfg.CallsExact) {env1 env2 : Env} :
@@ -494,11 +517,20 @@ theorem pure_collectWrites {cfg : Cfg} (hx : cfg.WritesExact) {env : Env} :
       | nil => simp [hl, hcall]
       | cons f args =>
         simp only [hck, if_true] at hcallc
-        cases hfind : env.find (getSymbol f) with
+        simp only [Bool.and_eq_true] at hcallc
+        have key : ∀ fi, env.find (calleeSym cfg.writeCallResolvesDot f) = some fi →
+            fi.changes = [] ∧ fi.refNonConst.all (fun r => !r) = true := by
+          intro fi hfi
+          have hp : entryPure (some fi) = true := by
+            rcases calleeSym_cases cfg.writeCallResolvesDot f with h1 | h1
+            · rw [h1] at hfi; rw [← hfi]; exact hcallc.1
+            · rw [h1] at hfi; rw [← hfi]; exact hcallc.2
+          simpa [entryPure, Bool.and_eq_true, List.isEmpty_iff] using hp
+        cases hfind : env.find (calleeSym cfg.writeCallResolvesDot f) with
         | none => simp [hl, hcall, hfind]
         | some fi =>
-          simp only [hfind, Bool.and_eq_true, List.isEmpty_iff] at hcallc
-          simp [hl, hcall, hfind, hcallc.1, refArgSymbols_allFalse cfg _ args hcallc.2]
+          have hk := key fi hfind
+          simp [hl, hcall, hfind, hk.1, refArgSymbols_allFalse cfg _ args hk.2]
     · simp [hl, hcall]
 theorem pure_collectWritesL {cfg : Cfg} (hx : cfg.WritesExact) {env : Env} :
     ∀ (es : List Expr), pureExprL env es = true → collectWritesL cfg env es = []
@@ -556,11 +588,12 @@ theorem reads_sound {cfg : Cfg} (hc : cfg.ReadsComplete) {P : List FunDecl} {env
     exact Or.inl (mem_collectReadsL he (ih _))
   | @callBody x f s fsubs args fd b hfd hname hb _ hnl hnp ih =>
     intro rnd
-    have hfind : env.find f = some (funInfo cfg env fd) := hname ▸ hcons fd hfd
+    have hfind : env.find (calleeSym cfg.readCallResolvesDot (.node .kIDENTIFIER f fsubs)) = some (funInfo cfg env fd) := by
+      rw [calleeSym_of_calleeIs (dot := false) (fun h => by cases h) (CalleeIs.ident f fsubs)]; exact hname ▸ hcons fd hfd
     have hmem := mem_funInfo_depends hc hb (ih _) hnl hnp
     have hne : Kind.kFUN_CALL ≠ Kind.kIDENTIFIER := by decide
     unfold collectReads
-    simp only [hne, if_false, hc.2.2.2, if_true, getSymbol_ident, hfind, hc.1, List.mem_append]
+    simp only [hne, if_false, hc.2.2.2, if_true, hfind, hc.1, List.mem_append]
     exact Or.inr hmem
 
 theorem symOk_of_isCTC {cfg : Cfg} {env : Env} {tab : SymTab} {e : Expr} (h : isCTC cfg env tab e = true) {s : Sym}
